@@ -625,7 +625,7 @@ fn cmd_run(a: &Args) -> i32 {
                 });
                 (res, format!("diff seed={} idx={} pseed={} len={}", seed, this, pseed, len))
             }
-            None if gen == "deadclone" || gen == "deaddrop" || gen == "deadclonelate" || gen == "deadclonepanic" || gen == "deadcloneafterweak" => {
+            None if gen == "deadclone" || gen == "deaddrop" || gen == "deadclonelate" || gen == "deadclonepanic" || gen == "deadcloneafterweak" || gen == "deadclonefrom" => {
                 let r = run_child(&gen, this, seed);
                 (r.0, r.1)
             }
@@ -790,6 +790,7 @@ fn cmd_child(a: &Args) -> i32 {
         "deadclonelate" => gen::ScriptMode::DeadCloneLate,
         "deadclonepanic" => gen::ScriptMode::DeadClonePanic,
         "deadcloneafterweak" => gen::ScriptMode::DeadCloneAfterWeak,
+        "deadclonefrom" => gen::ScriptMode::DeadCloneFrom,
         _ => gen::ScriptMode::DeadDrop,
     };
     let idx = a.u64("idx", 0);
